@@ -12,8 +12,8 @@ import (
 	"time"
 
 	"github.com/hashicorp/consul/agent/structs"
-	"github.com/hashicorp/consul/types"
 	"github.com/hashicorp/consul/internal/verifsim/simkit"
+	"github.com/hashicorp/consul/types"
 )
 
 // C04: locks have one holder, only live sessions hold locks, and whenever a
